@@ -182,6 +182,11 @@ def run(ctx):
         for n in cfg.node_containing(c):
             if cfg.guarded(n, st_fact(b"NO", True)):
                 ctx.holds("Q2", "%s: NO -> error parser" % lin.qualname)
+            elif cfg.guarded(n, st_fact(b"BYE", True)) and all(
+                    isinstance(x.ast, ast.Raise) for x in cfg.reach([n], exc=False) if x.kind == "stmt" and isinstance(x.ast, (ast.Raise, ast.Return))) \
+                    and any(isinstance(x.ast, ast.Raise) for x in cfg.reach([n], exc=False) if x.kind == "stmt"):
+                # the reason given with a BYE is kept for the caller; the reply still ends in the Error the property asks for
+                ctx.holds("Q2", "%s: BYE -> error parser, then raise" % lin.qualname)
             else:
                 ctx.violation("Q2", lin, "error-parser-unguarded", "the error parser runs for replies other than NO", node=c)
     # NO must reach the error parser before Response
